@@ -152,7 +152,7 @@ class TxRunner:
             if fr[0] == kind:
                 self.bump("reentered_owner_object")
                 if kind in fr[1:]:
-                    self.bump("deep_reentry_not_judged")
+                    self.bump("owner_object_active_three_times")
             else:
                 self.bump("reentered_non_owner_object")
         elif fr and fr[0].startswith("@"):
@@ -527,25 +527,20 @@ def gen_command(rng, ttls) -> str:
 POOL = ["@0", "@1", "@2"]
 
 
-def pick_kind(rng, stack: list[str], deep: bool) -> str:
+def pick_kind(rng, stack: list[str]) -> str:
     """kind of the next block: an object of its own, the decorator form, or a shared object — preferring, inside a
-    block of a shared object, to enter that very object again.  Without `deep` the object owning the transaction
-    is never made active three times at once (that class is compared with the model but not judged)."""
+    block of a shared object, to enter that very object again (to any depth)."""
     r = rng.random()
     if r < 0.45:
         return ""
     if r < 0.55:
         return "dec" if rng.random() < 0.6 else "dec" + rng.choice(POOL)
-    if stack and stack[0].startswith("@") and rng.random() < (0.75 if deep else 0.5):
-        k = stack[0]
-    else:
-        k = rng.choice(POOL)
-    if not deep and stack and stack[0] == k and k in stack[1:]:
-        return rng.choice([p for p in POOL if p != k] + ["", "dec"])
-    return k
+    if stack and stack[0].startswith("@") and rng.random() < 0.55:
+        return stack[0]
+    return rng.choice(POOL)
 
 
-def gen_events(rng, maxlen: int, crossing: bool, deep: bool = False) -> list[str]:
+def gen_events(rng, maxlen: int, crossing: bool) -> list[str]:
     """one task's program: 1-3 outermost blocks (nested up to three times now and then), each block on a context
     object of its own, in decorator form, or on one of three shared context objects (re-entered nested in
     themselves / in each other and re-used sequentially); commands, small time advances; ended by commit,
@@ -557,7 +552,7 @@ def gen_events(rng, maxlen: int, crossing: bool, deep: bool = False) -> list[str
     modes = {k: rng.choice(MODES) for k in POOL}
 
     def enter(stack):
-        kind = pick_kind(rng, stack, deep)
+        kind = pick_kind(rng, stack)
         stack.append(kind)
         return f"enter {modes.get(shared_name(kind)) or rng.choice(MODES)} {kind}".strip()
 
@@ -613,7 +608,7 @@ def gen_case(rng, i: int) -> dict:
     return {
         "config": "facade_secret" if i % 5 == 4 else "facade",
         "init": gen_init(rng),
-        "events": gen_events(rng, 14 if i % 3 else 6, crossing, deep=i % 16 == 5),
+        "events": gen_events(rng, 14 if i % 3 else 6, crossing),
     }
 
 
